@@ -14,6 +14,9 @@ META = {
     "level": "Decides the structural clauses: command/reply tables of processor.py and ebuild-daemon.bash agree; every main-loop / phase-loop arm answers exactly once (or never, for the requests Python does not wait on) on every path that stays in the loop, at most once before exiting; unknown commands die (bash) / raise UnhandledCommand (Python); _consume_async_expects reads exactly one line per queued expectation and empties the queue whether or not they matched; inherit_handler either answers with two lines or force-kills the daemon before raising. Does NOT decide absence of deadlock over all interleavings (that needs a protocol model; the rules here are the per-site obligations such a model would assume).",
     "note": "",
 }
+META["technique"] += "; " + 'bash exit-status analysis: functions ending in `[[ ]] && action` used as conditions'
+META["level"] += " Added after the second round of independent changes: " + '(R6) no bash reader whose status is 1-on-success is used as a loop or branch condition.'
+META["technique"] += "; " + 'generic pack G on the anchored files (optional-flag shift, closures outliving a loop iteration, single-pass iterables consumed twice, %-templates built from data, in-place writes to class-level / memoised objects, generators mutating what they yielded, memo keys that are projections)'
 PROC = "pkgcore.ebuild.processor"
 DAEMON = "data/lib/pkgcore/ebd/ebuild-daemon.bash"
 LIB = "data/lib/pkgcore/ebd/ebuild-daemon-lib.bash"
